@@ -104,14 +104,21 @@ class FileLines:
 
 
 # ================================================================== orchestrator: running a rule
+# "any Exception": the generic class and the concrete classes a Python rule can plausibly raise, including subclasses of
+# ValueError (handlers are matched by the class hierarchy of pyvc.ex.EXC_PARENTS)
+VALUE_ERRORS = ("ValueError", "UnicodeDecodeError", "UnicodeError", "JSONDecodeError", "TOMLDecodeError")
+ANY_EXCEPTION = VALUE_ERRORS + ("Exception", "KeyError", "IndexError", "TypeError", "AttributeError", "RuntimeError",
+                                "RecursionError", "MemoryError", "OSError", "FileNotFoundError", "SyntaxError",
+                                "ZeroDivisionError", "AssertionError", "StopIteration", "NotImplementedError", "ImportError")
 RuleT = Rec("BaseLintRule", cls="src/core/base.py::BaseLintRule")
 OrchT = Rec("Orchestrator", cls=O + "Orchestrator")
 
 
 @contract("src/core/base.py::BaseLintRule.check", props=["C11", "C05"], types=dict(self=RuleT, context=CtxT),
-          returns=SeqOf(ViolationT), raises=["ValueError", "Exception"],
+          returns=SeqOf(ViolationT), raises=list(ANY_EXCEPTION),
           assumed="abstract method: stands for ANY rule implementation -- may return any list or raise any Exception "
-                  "(ValueError = configuration validation error, by the orchestrator's convention)")
+                  "(modelled by the classes of ANY_EXCEPTION; ValueError and its subclasses = configuration validation "
+                  "error, by the orchestrator's convention)")
 class RuleCheck:
     def ensures(result):
         return True
@@ -131,7 +138,9 @@ class SafeCheckRule:
     user-facing) leaves; every other Exception becomes the empty result. This is ALSO the place where an analysis is
     dropped silently: the clause says what the code does, it is not the 'no rule fails internally' half of C11."""
     def on_raise_only_configuration_errors(exc_class):
-        return exc_class == "ValueError"
+        # ValueError or one of its subclasses (`except ValueError: raise`) -- NOTE: that includes e.g. a
+        # UnicodeDecodeError / JSONDecodeError raised by a rule's own code, which therefore is NOT contained
+        return exc_class in VALUE_ERRORS
 
 
 # ================================================================== ignore files
@@ -278,7 +287,7 @@ class ResolveFilePath:
         return path_str(context.file_path) if context.file_path is not None else "unknown"
 
 
-@contract(LU + "is_ignored_path", props=["C11"], types=dict(file_path=Str, ignore_patterns=SeqOf(Str)), returns=Bool,
+@contract(LU + "is_ignored_path", props=["C11", "C09"], types=dict(file_path=Str, ignore_patterns=SeqOf(Str)), returns=Bool,
           raises=[])
 class IsIgnoredPath:
     def value(file_path, ignore_patterns):
